@@ -254,6 +254,20 @@ def step (w : World) (line : String) : World × String :=
          | none => (w, "badop"))
       | none => (w, "badop")
     | _ => (w, "badop")
+  else if cmd == "selfas" then
+    match rest with
+    | [s, idS] =>
+      match s.toNat? with
+      | some si =>
+        (match w.shards[si]? with
+         | some sh =>
+           if idS == "own" then ({ w with shards := w.shards.set si { sh with selfAs := none } }, "selfas ok")
+           else match idS.toNat? with
+             | some i => if i < w.nshards then ({ w with shards := w.shards.set si { sh with selfAs := some i } }, "selfas ok") else (w, "badop")
+             | none => (w, "badop")
+         | none => (w, "badop"))
+      | none => (w, "badop")
+    | _ => (w, "badop")
   else if cmd == "aliasing" then
     -- harness-side storage discipline (accounts keep / hand out slices by reference); the model has values, not slices
     match rest with
